@@ -83,7 +83,7 @@ func VerifC12(args []string) {
 			case OpExecEvent:
 				d, isOp := ev.Data.(OpEventData)
 				vfAssert(isOp, "OP_EXEC event carries OpEventData")
-				if d.OpName == "p" || d.OpName == "q" || d.OpName == "z" {
+				if d.OpName == "p" || d.OpName == "q" || d.OpName == "z" || d.OpName == "y" {
 					custom = append(custom, d)
 				}
 				if !vfIsBoolOpName(d.OpName) {
